@@ -252,10 +252,10 @@ def _merge(
 
     # merged cell connectivities
     cells_dict: dict[CellType, Array] = {
-        ct: make_array(fields1.domain.connectivity(ct)) for ct in fields1.domain.cell_types
+        ct: make_array(fields1.domain.connectivity(ct), dtype=int) for ct in fields1.domain.cell_types
     }
     for ct in fields2.domain.cell_types:
-        mapped_connectivity = make_array(fields2.domain.connectivity(ct))
+        mapped_connectivity = make_array(fields2.domain.connectivity(ct), dtype=int)
         for cell_idx, cell_corners in enumerate(mapped_connectivity):
             mapped_connectivity[cell_idx] = points2_map[cell_corners]
         if ct in cells_dict:
